@@ -616,9 +616,12 @@ impl LruShim {
             (x == k@ && final(self).cview()[x] == v) || (old(self).cview().contains_key(x) && final(self).cview()[x] == old(self).cview()[x]),
     { unimplemented!() }
 }
-/// every cached object is the object form of a value that is staged or was read (hash-checked) under that digest
+/// the content digest of an object (digest_object: SHA-256 of its canonical JSON text), uninterpreted
+pub uninterp spec fn digest_of(o: JMap) -> Seq<char>;
+/// cache invariant: an object is cached only under its own content digest.  (It does NOT say the object is still staged or
+/// committed: DataStorage::unstage empties the stage but keeps the cache — a cache hit proves nothing about the stage.)
 pub open spec fn cache_inv(d: DataStorage) -> bool {
-    forall|k: Seq<char>| #[trigger] d.cache.cview().contains_key(k) ==> backed(d, k, d.cache.cview()[k])
+    forall|k: Seq<char>| #[trigger] d.cache.cview().contains_key(k) ==> digest_of(d.cache.cview()[k]) == k
 }
 /// object `o` is what the storage holds for `digest`: staged under it, or parsed from bytes that hash to it
 pub open spec fn backed(d: DataStorage, digest: Seq<char>, o: JMap) -> bool {
